@@ -87,9 +87,9 @@ fn describe(w: &World) -> String {
 }
 
 /// wait until the cluster is quiet and judge it
-/// `root` = the first trigger applied in this history when it is not `trigger` itself: a failure after
-/// several triggers is attributed to the earliest one the (minimised) history still needs.
-fn judge(w: &World, trigger: &str, root: Option<&str>, nodes: usize, class: &str, out: &mut Outcome) -> bool {
+/// `earlier` = the triggers applied before `trigger` in this history (the minimised history keeps only
+/// the ones the failure needs): part of the violation shape, an earlier election can leave latent damage.
+fn judge(w: &World, trigger: &str, earlier: &[String], nodes: usize, class: &str, out: &mut Outcome) -> bool {
     let timeout = election_timeout_ms();
     let budget_ms = 6 * (timeout + 1_100);
     let t0 = kernel::now();
@@ -112,9 +112,10 @@ fn judge(w: &World, trigger: &str, root: Option<&str>, nodes: usize, class: &str
         sleep_ms(50);
     }
     out.elections_judged += 1;
-    let shape = match root {
-        None => format!("{}:{}nodes:{}", trigger, nodes, class),
-        Some(r) => format!("{}:{}nodes:{}:then:{}", r, nodes, class, trigger),
+    let shape = if earlier.is_empty() {
+        format!("{}:{}nodes:{}", trigger, nodes, class)
+    } else {
+        format!("{}:{}nodes:{}:after:{}", trigger, nodes, class, earlier.join("+"))
     };
     if !ok {
         let why = w.agreed_primary().err().unwrap_or_else(|| "the cluster keeps exchanging messages".to_string());
@@ -175,10 +176,10 @@ fn execute(prog: Program) -> Outcome {
         if prog.latency_us.1 > 0 { "latency" } else { "lan" }
     );
     let class = class.as_str();
-    if !judge(&w, "startup", None, prog.nodes, class, &mut out) {
+    if !judge(&w, "startup", &[], prog.nodes, class, &mut out) {
         return out;
     }
-    let mut first: Option<String> = None;
+    let mut earlier: Vec<String> = Vec::new();
     for t in prog.triggers.iter() {
         let name: String = match t {
             Trigger::None => continue,
@@ -249,12 +250,10 @@ fn execute(prog: Program) -> Outcome {
             }
         };
         sleep_ms(5);
-        if !judge(&w, &name, first.as_deref(), prog.nodes, class, &mut out) {
+        if !judge(&w, &name, &earlier, prog.nodes, class, &mut out) {
             return out;
         }
-        if first.is_none() {
-            first = Some(name);
-        }
+        earlier.push(name);
     }
     out
 }
@@ -270,7 +269,7 @@ impl Property for C07 {
         (4_000, 150_000)
     }
     fn rule(&self) -> &'static str {
-        "clusters of 2-3 real nodes (real start_db, join, election, set-primary traffic over the simulated TCP with one thread per connection) booted 1 ms - 2.5 s apart, link latency 0 or up to min(timeout/4, 200 ms), election timeout per worker in {400,1000,2000} ms, followed by 0-3 triggers of {debug force-election on any node, two at once, kill of the primary, kill of a secondary, restart of a dead node}; timers fire only when no task can run (messages are faster than the timeout). After start-up and after every trigger the cluster must become quiet within 6 x (timeout + 1.1 s) with exactly one primary = the live node with the smallest process id, all others secondary, every member table naming that primary. A failure after several triggers is attributed (violation shape) to the first trigger that the minimised history still needs. Non-trivial: at least one election beyond a single-node start-up was judged. distinct = distinct (program, task-switch sequence)."
+        "clusters of 2-3 real nodes (real start_db, join, election, set-primary traffic over the simulated TCP with one thread per connection) booted 1 ms - 2.5 s apart, link latency 0 or up to min(timeout/4, 200 ms), election timeout per worker in {400,1000,2000} ms, followed by 0-3 triggers of {debug force-election on any node, two at once, kill of the primary, kill of a secondary, restart of a dead node}; timers fire only when no task can run (messages are faster than the timeout). After start-up and after every trigger the cluster must become quiet within 6 x (timeout + 1.1 s) with exactly one primary = the live node with the smallest process id, all others secondary, every member table naming that primary. The violation shape names the failing trigger, the cluster size, the boot/latency class and the triggers applied earlier in the (minimised) history. Non-trivial: at least one election beyond a single-node start-up was judged. distinct = distinct (program, task-switch sequence)."
     }
     fn assumptions(&self) -> Vec<String> {
         vec![
